@@ -93,7 +93,10 @@ def write_read(spec, path, d):
     before = S.snapshot(sc, pps)
     if os.path.exists(path):
         os.remove(path)
-    CommonRoadFileWriter(sc, pps, decimal_precision=d).write_to_file(path, OverwriteExistingFile.ALWAYS)
+    w = CommonRoadFileWriter(sc, pps, decimal_precision=d)
+    # "d being the writer's decimal precision": another writer with another precision is constructed in between (and never used)
+    CommonRoadFileWriter(sc, pps, decimal_precision=13 - d if d != 13 - d else 3)
+    w.write_to_file(path, OverwriteExistingFile.ALWAYS)
     sc2, pps2 = CommonRoadFileReader(path).open()
     return before, S.snapshot(sc2, pps2), (sc, pps, sc2, pps2)
 
